@@ -14,8 +14,15 @@ Pick == /\ ph = "pick"
              /\ (Len(ds) = 2 => ds[1] # "gzlike")
              /\ s' = [dir |-> d, target |-> t, tcodec |-> c, accept |-> a, hdcomp |-> hz, ct |-> ct, datas |-> ds, name |-> nm]
         /\ ph' = "done"
+\* the server-streaming Feed (GET /v1/feed, any message is a valid request) called by an enveloped RPC client that ends its request stream without sending
+\* the (one) request message, toward a REST-only backend: target = the CLIENT's protocol here
+PickEmptyRpc == /\ ph = "pick"
+                /\ \E t \in Targets, c \in Codecs :
+                     s' = [dir |-> "emptyrpc", target |-> t, tcodec |-> c, accept |-> FALSE, hdcomp |-> FALSE, ct |-> "",
+                           datas |-> <<"empty">>, name |-> "plain"]
+                /\ ph' = "done"
 Done == ph = "done" /\ UNCHANGED vars
-Next == Pick \/ Done
+Next == Pick \/ PickEmptyRpc \/ Done
 Spec == Init /\ [][Next]_vars
 EmitInv == (ph = "done" /\ Emit) => PrintT(ToJson(s))
 =============================================================================
